@@ -325,6 +325,15 @@ func (e *Exec) frameObligations(final *State, c *Contract, sc *clauseScope) {
 			continue
 		}
 		seen[k] = true
+		whole := false
+		for _, d := range byKey[k] {
+			if d.whole {
+				whole = true
+			}
+		}
+		if whole || len(byKey["*"]) > 0 {
+			continue
+		}
 		now := e.heapGet(final, k)
 		before := e.heapGet(e.old, k)
 		if now.S == before.S {
